@@ -85,8 +85,20 @@ pub(super) fn execute_set_from_maps<S: GraphSnapshot>(
     let mut count = 0;
 
     for row in execute_plan(snapshot, input, params) {
-        let row = row?;
-        for (var, expr, append) in items {
+        let mut row = row?;
+        for (index, item) in items.iter().enumerate() {
+            // An item sees what the items before it did to the same entity.
+            if index > 0 {
+                let previous = std::slice::from_ref(&items[index - 1]);
+                if let Some(updated) =
+                    apply_set_map_overlay_to_rows(snapshot, vec![row.clone()], previous, params)
+                        .into_iter()
+                        .next()
+                {
+                    row = updated;
+                }
+            }
+            let (var, expr, append) = item;
             super::plan_mid::ensure_runtime_expression_compatible(expr, &row, snapshot, params)?;
             let evaluated = evaluate_expression_value(expr, &row, snapshot, params);
             if matches!(evaluated, Value::Null) {
